@@ -575,7 +575,14 @@ def bounded_pairs(ctx, b):
             return (type(o).__name__,) + tuple(comps(getattr(o, f)) for f in FIELDS[type(o)])
         return o
     lays_wv = [Layout(origin=o, webvtt_positioning=w) for o in [None, pts[0]] for w in (None, "line:10%", "align:start")]
-    for group in (sizes, pts, als, pads, strs, rng.sample(lays, 60), lays_wv):
+    # paddings built with edges left out (they default to 0%) are the same values as those that spell the zeros out
+    z0 = Size(0, UnitEnum.PERCENT)
+    a1 = Size(5, UnitEnum.PERCENT)
+    pads_partial = [Padding(before=a1), Padding(a1, Size(0, UnitEnum.PERCENT), Size(0, UnitEnum.PERCENT), Size(0, UnitEnum.PERCENT)),
+                    Padding(start=a1), Padding(z0, z0, a1, z0), Padding(), Padding(z0, z0, z0, Size(0, UnitEnum.PERCENT)),
+                    Padding(after=a1, end=a1), Padding(z0, a1, z0, a1), Padding(before=a1, after=None, start=None, end=a1)]
+    lays_partial = [Layout(padding=pd) for pd in pads_partial] + [Layout(origin=pts[0], padding=pd) for pd in pads_partial[:4]]
+    for group in (sizes, pts, als, pads, strs, rng.sample(lays, 60), lays_wv, pads_partial, lays_partial):
         for x in group:
             for y in group + [None, 0, "10%", copy.deepcopy(x)]:
                 want = type(x) is type(y) and comps(x) == comps(y)
